@@ -1995,7 +1995,7 @@ def call_parser_function(
             ofs = arg.find("=")
             if ofs >= 0:
                 k = arg[:ofs]
-                if k.isdigit():
+                if k.isascii() and k.isdigit() and len(k) <= 4300:
                     k = int(k)
                 arg = arg[ofs + 1 :]
             else:
